@@ -138,4 +138,112 @@ Proof.
   change (wsum ws (map ?P (seq 0 (length ws)))) with (wsP ws P).
   apply wsP_same. intros j Hj. rewrite (sf_pn a j Hj). cbn [pn nd_reach]. rewrite (permL_nth [] _ j Hj). reflexivity.
 Qed.
+
+(* ---------- the rules over a re-indexed table ---------- *)
+Notation fcn := (fc_n ws q).
+Notation fcn' := (fc_n ws' q').
+Notation rts := (roots_at node nd_fr nd_spf).
+Notation obsT := (obs node nd_fr nd_spf fcn).
+Notation obsT' := (obs node nd_fr nd_spf fcn').
+Notation voters := (ElectionSpec.by_cr node nd_cr).
+
+Lemma find_ext_in {A} (p p' : A -> bool) l : (forall x, In x l -> p x = p' x) -> find p l = find p' l.
+Proof.
+  induction l as [|a t IH]; intros H; cbn [find]; [reflexivity|].
+  rewrite (H a (or_introl eq_refl)). destruct (p' a); [reflexivity|]. apply IH. intros x Hx. apply H. right. exact Hx.
+Qed.
+
+Lemma roots_pn T f : rts (map pn T) f = map pn (rts T f).
+Proof. unfold roots_at. rewrite filter_map_comm. reflexivity. Qed.
+Lemma rts_crs T f : crs_ok T -> crs_ok (rts T f).
+Proof. intros H n Hn. apply H. unfold roots_at in Hn. apply filter_In in Hn. apply Hn. Qed.
+Lemma obs_pn T r f : crs_ok T -> obsT' (map pn T) (pn r) f = map pn (obsT T r f).
+Proof.
+  intros HT. unfold obs. rewrite roots_pn, filter_map_comm. f_equal. apply filter_ext_in.
+  intros b Hb. apply fcn_pn. apply (rts_crs T f HT b Hb).
+Qed.
+Lemma obs_crs T r f : crs_ok T -> crs_ok (obsT T r f).
+Proof. intros H n Hn. unfold obs in Hn. apply filter_In in Hn as [Hn _]. apply (rts_crs T f H n Hn). Qed.
+Lemma voters_pn l (P P' : node -> bool) j : crs_ok l -> (forall x, In x l -> P' (pn x) = P x) -> (j < nv)%nat ->
+  voters (map pn l) P' j = voters l P (unpos j).
+Proof.
+  intros Hl HP Hj. unfold ElectionSpec.by_cr. rewrite existsb_map. apply existsb_ext_in. intros x Hx.
+  cbn [pn nd_cr]. rewrite (pos_eqb _ j (Hl x Hx) Hj), (HP x Hx). reflexivity.
+Qed.
+
+Lemma qon_pn T e f : crs_ok T ->
+  quorum_on node nd_cr nd_fr nd_spf fcn' ws' q' (map pn T) (pn e) f = quorum_on node nd_cr nd_fr nd_spf fcn ws q T e f.
+Proof.
+  intros HT. unfold quorum_on. rewrite (obs_pn T e f HT), q_same. f_equal.
+  change (wsumP ws' ?Q) with (wsP ws' Q). change (wsumP ws ?P) with (wsP ws P).
+  apply wsP_same. intros j Hj. apply voters_pn; [apply obs_crs; exact HT | reflexivity | exact Hj].
+Qed.
+Lemma climb_pn T e : crs_ok T -> forall fuel g,
+  climb node nd_cr nd_fr nd_spf fcn' ws' q' (map pn T) fuel (pn e) g = climb node nd_cr nd_fr nd_spf fcn ws q T fuel e g.
+Proof. intros HT. induction fuel as [|fu IH]; intros g; cbn [climb]; [reflexivity|]. rewrite (qon_pn T e g HT), IH. reflexivity. Qed.
+Lemma frame_ok_pn T n : crs_ok T -> r_frame_ok vals' (map pn T) (pn n) = r_frame_ok vals T n.
+Proof. intros HT. unfold r_frame_ok, frame_ok. cbn [pn nd_hassp nd_spf nd_fr]. rewrite (climb_pn T n HT). reflexivity. Qed.
+Lemma frame_high_pn T n : crs_ok T -> r_frame_high vals' (map pn T) (pn n) = r_frame_high vals T n.
+Proof. intros HT. unfold r_frame_high, frame_high. cbn [pn nd_hassp nd_spf]. rewrite (climb_pn T n HT). reflexivity. Qed.
+
+(* votes and decisions *)
+Notation vote0 T := (vote node nd_cr nd_fr nd_spf fcn ws T).
+Notation vote1 T := (vote node nd_cr nd_fr nd_spf fcn' ws' T).
+Lemma vote_pn T f0 : crs_ok T -> forall k r j, (j < nv)%nat -> vote1 (map pn T) f0 k (pn r) j = vote0 T f0 k r (unpos j).
+Proof.
+  intros HT. induction k as [|k IH]; intros r j Hj; [reflexivity|]. destruct k as [|k].
+  - change (vote1 (map pn T) f0 1 (pn r) j) with (voters (obsT' (map pn T) (pn r) f0) (fun _ => true) j).
+    change (vote0 T f0 1 r (unpos j)) with (voters (obsT T r f0) (fun _ => true) (unpos j)).
+    rewrite (obs_pn T r f0 HT). apply voters_pn; [apply obs_crs; exact HT | reflexivity | exact Hj].
+  - change (vote1 (map pn T) f0 (S (S k)) (pn r) j) with
+      (wsP ws' (voters (obsT' (map pn T) (pn r) (f0 + N.of_nat (S k))) (fun r' => negb (vote1 (map pn T) f0 (S k) r' j)))
+       <=? wsP ws' (voters (obsT' (map pn T) (pn r) (f0 + N.of_nat (S k))) (fun r' => vote1 (map pn T) f0 (S k) r' j))).
+    change (vote0 T f0 (S (S k)) r (unpos j)) with
+      (wsP ws (voters (obsT T r (f0 + N.of_nat (S k))) (fun r' => negb (vote0 T f0 (S k) r' (unpos j))))
+       <=? wsP ws (voters (obsT T r (f0 + N.of_nat (S k))) (fun r' => vote0 T f0 (S k) r' (unpos j)))).
+    rewrite (obs_pn T r _ HT).
+    f_equal; apply wsP_same; intros u Hu; apply voters_pn; try (apply obs_crs; exact HT); try exact Hu;
+      intros x _; rewrite (IH x j Hj); reflexivity.
+Qed.
+
+Notation dec0 T := (decides node nd_cr nd_fr nd_spf fcn ws q T).
+Notation dec1 T := (decides node nd_cr nd_fr nd_spf fcn' ws' q' T).
+Lemma yes_no_pn T f0 k r j (neg : bool) : crs_ok T -> (j < nv)%nat ->
+  wsP ws' (voters (obsT' (map pn T) (pn r) (f0 + N.of_nat k)) (fun r' => (if neg then negb else fun b => b) (vote1 (map pn T) f0 k r' j)))
+  = wsP ws (voters (obsT T r (f0 + N.of_nat k)) (fun r' => (if neg then negb else fun b => b) (vote0 T f0 k r' (unpos j)))).
+Proof.
+  intros HT Hj. rewrite (obs_pn T r _ HT). apply wsP_same. intros u Hu.
+  apply voters_pn; [apply obs_crs; exact HT | | exact Hu]. intros x _. rewrite (vote_pn T f0 HT k x j Hj). reflexivity.
+Qed.
+Lemma decides_pn T f0 k r j b : crs_ok T -> (j < nv)%nat -> (dec1 (map pn T) f0 k (pn r) j b <-> In (pn r) (rts (map pn T) (f0 + N.of_nat k + 1)) /\ (1 <= k)%nat /\
+   q <= (if b then yesV node nd_cr nd_fr nd_spf fcn ws T f0 k r (unpos j) else noV node nd_cr nd_fr nd_spf fcn ws T f0 k r (unpos j))).
+Proof.
+  intros HT Hj. unfold decides, yesV, noV.
+  pose proof (yes_no_pn T f0 k r j false HT Hj) as EY. pose proof (yes_no_pn T f0 k r j true HT Hj) as EN. cbn beta iota in EY, EN.
+  destruct b; [rewrite EY | rewrite EN]; rewrite q_same; tauto.
+Qed.
+Lemma decides_up T f0 k r u b : crs_ok T -> (u < nv)%nat -> dec0 T f0 k r u b -> dec1 (map pn T) f0 k (pn r) (pos u) b.
+Proof.
+  intros HT Hu [Hk [Hr Hq]]. apply (decides_pn T f0 k r (pos u) b HT (pos_lt nv ord Hperm u Hu)).
+  rewrite (unpos_pos nv ord Hperm u Hu). split; [rewrite roots_pn; apply in_map; exact Hr | auto].
+Qed.
+Lemma decides_down T f0 k r' j b : crs_ok T -> (j < nv)%nat -> dec1 (map pn T) f0 k r' j b ->
+  exists r, r' = pn r /\ dec0 T f0 k r (unpos j) b.
+Proof.
+  intros HT Hj D. pose proof D as [_ [Hr _]]. rewrite roots_pn in Hr. apply in_map_iff in Hr as [r [<- Hr]].
+  exists r. split; [reflexivity|]. apply (decides_pn T f0 k r j b HT Hj) in D as [_ [Hk Hq]]. split; [exact Hk|]. split; [exact Hr | exact Hq].
+Qed.
+
+Lemma voted_root_pn T f0 j : crs_ok T -> (j < nv)%nat ->
+  voted_root node nd_cr nd_fr nd_spf fcn' (map pn T) f0 j = option_map pn (voted_root node nd_cr nd_fr nd_spf fcn T f0 (unpos j)).
+Proof.
+  intros HT Hj. unfold voted_root. rewrite !roots_pn, find_map. f_equal. apply find_ext_in. intros a Ha.
+  cbn [pn nd_cr]. rewrite (pos_eqb _ j (rts_crs T f0 HT a Ha) Hj). f_equal.
+  rewrite existsb_map. apply existsb_ext_in. intros r _. apply fcn_pn. apply (rts_crs T f0 HT a Ha).
+Qed.
+
+Lemma max_frame_pn T : max_frame node nd_fr (map pn T) = max_frame node nd_fr T.
+Proof.
+  unfold max_frame. generalize 0. induction T as [|n t IH]; intros m; cbn [map fold_left]; [reflexivity|]. apply IH.
+Qed.
 End Equiv.
